@@ -39,8 +39,8 @@ LEVEL_TEXT = (
     "operation histories, fault scripts and pool configurations: no leak once every holder is dropped, QueuePool "
     "accounting exact on every failure path, ledger (open connection owned exactly once; closed never idle), no reuse "
     "of closed / pool-invalidated / soft-invalidated connections under a strictly increasing clock; refutations with "
-    "witnesses where the code breaks the clause (BaseException out of close(), BaseException in the GC-time reset, "
-    "StaticPool abandoning an invalidated connection, equal time stamps)."
+    "witnesses where the code breaks the clause (BaseException out of close(), stale fairy after a BaseException in the "
+    "reset of an explicit close(), StaticPool abandoning an invalidated connection, equal time stamps)."
 )
 LEVEL_NOTE = (
     "Trusted: Coq kernel; the hand transcription (source pin + exhaustive single-fault correspondence on the real "
@@ -537,7 +537,9 @@ def gen_cases(rng, tier):
 
 # witnesses used by the _refuted theorems (kept in step with coq/props/C26.v)
 WITNESSES = [
-    [[0, 1, 1, 0, -1, 0, 0, 0, 1], [[0, 0, 1], [5, 0, 1]], [0, 2]],  # c26_no_leak_refuted_baseexception_in_gc_reset
+    [[0, 1, 1, 0, -1, 0, 0, 0, 1], [[0, 0, 1], [5, 0, 1]], [0, 2]],  # c26_ex_gc_reset_baseexception_recovers (fixed by 51edfd0)
+    [[0, 1, 1, 0, -1, 0, 0, 0, 1], [[0, 0, 1], [5, 0, 1]], [0, 1, 2]],  # c26_no_leak_refuted_baseexception_from_close
+    [[0, 1, 1, 0, -1, 0, 0, 0, 1], [[0, 0, 1], [1, 0, 1], [4, 0, 1]], [0, 2]],  # c26_overflow_refuted_baseexception_in_explicit_reset
     [[0, 1, -1, 1, 0, 1, 0, 1, 1], [[0, 0, 1]], [0, 2, 2]],  # c26_overflow_refuted_baseexception_from_close
     [[0, 2, 0, 0, -1, 1, 1, 0, 1], [[0, 0, 1], [0, 0, 1]], [0, 4, 2]],  # c26_no_dead_reuse_refuted_baseexception_from_close
     [[0, 1, 0, 0, -1, 0, 0, 0, 0], [[0, 0, 1], [3, 0, 0], [1, 0, 1], [0, 0, 1]], []],  # equal stamps: soft
@@ -813,8 +815,8 @@ def _analyse(c, obs):
             k += 1
             if code == 2 and kind == K_CLOSE:
                 taint_close = True
-            if code == 2 and kind in (K_ROLLBACK, K_COMMIT) and op in (O_CONNECT, O_DEL):
-                taint_gc = True
+            if code == 2 and kind in (K_ROLLBACK, K_COMMIT) and op not in (O_CONNECT, O_DEL):
+                taint_gc = True  # BaseException out of the reset of an explicitly returned fairy
     return taint_close, taint_gc
 
 
@@ -825,7 +827,7 @@ def oracle(c, obs):
         maxov = -1
     steps, nclose, idle, held, detached = obs
     taint_close, taint_gc = _analyse(c, obs)
-    tags = "%s%s%s" % (" [BaseException-from-close]" if taint_close else "", " [BaseException-in-gc-reset]" if taint_gc else "", " [StaticPool]" if kind == KST else "")
+    tags = "%s%s%s" % (" [BaseException-from-close]" if taint_close else "", " [BaseException-in-explicit-reset]" if taint_gc else "", " [StaticPool]" if kind == KST else "")
     # --- replay the harness-level facts
     holder_conn = []  # per holder: connection obtained at its checkout
     alive = []  # holder still referenced by the harness
@@ -910,8 +912,8 @@ def match_finding(c, what):
     cfg, ops, faults = c["in"]
     if "[BaseException-from-close]" in what:
         return "C26-baseexception-from-close"
-    if "[BaseException-in-gc-reset]" in what and what.startswith(("leak:", "overflow:")):
-        return "C26-baseexception-in-gc-reset"
+    if "[BaseException-in-explicit-reset]" in what and any(o[0] in (O_DETACH, O_INV, O_POOLINV, O_SOFT) for o in ops):
+        return "C26-stale-fairy-after-baseexception-in-reset"
     if (
         "[StaticPool]" in what
         and "is open but neither idle in the pool nor held" in what
